@@ -238,11 +238,21 @@ func checkC04(r *Run) propMeta {
 	} else {
 		r.Fail("C04-R3-alias-position", "format:AliasedExpression", token.NoPos, "the alias of an aliased expression is pushed to the output verbatim: a user-chosen result alias is read as SQL")
 	}
+	letters := [][2]rune{{'a', 'z'}, {'A', 'Z'}, {'0', '9'}}
 	if fa := c04Roles.declOf(c04Roles.alias); fa != nil {
-		if findDoublingReplace(fp.TypesInfo, fa.Body, `"`) != nil {
+		ok, undecided, quoted, detail := sanitizerVerdict(r, fp, fa, asciiSet("_$", letters...))
+		if quoted > 0 {
 			r.Pass("C04-R3-alias-position", "formatAlias:doubles-quotes", fa.Pos(), "embedded double quotes are doubled inside the delimited identifier")
 		} else {
 			r.Fail("C04-R3-alias-position", "formatAlias:doubles-quotes", fa.Pos(), "formatAlias no longer doubles embedded double quotes")
+		}
+		switch {
+		case !ok:
+			r.Fail("C04-R3-alias-position", "formatAlias:verbatim-set", fa.Pos(), "the alias quoting function lets a name through undelimited that is not made of letters, digits, _ and $ only: %s", detail)
+		case undecided:
+			r.Undecide("C04-R3-alias-position formatAlias:verbatim-set: " + detail)
+		default:
+			r.Pass("C04-R3-alias-position", "formatAlias:verbatim-set", fa.Pos(), "range analysis of the per-character tests: a name is handed back unchanged only when made of letters, digits, _ and $")
 		}
 	}
 	// generic identifier positions are rendered through formatIdentifier, whose pass-through set has no SQL-significant character
@@ -267,28 +277,16 @@ func checkC04(r *Run) propMeta {
 		})
 	}
 	if fi := c04Roles.declOf(c04Roles.ident); fi != nil && identSanitised {
-		okSet, delegates := true, false
-		ast.Inspect(fi.Body, func(n ast.Node) bool {
-			switch x := n.(type) {
-			case *ast.BasicLit:
-				if x.Kind == token.CHAR {
-					c := strings.Trim(x.Value, "'")
-					if !(c == "_" || c == "$" || c == "." || c == "*" || c == "a" || c == "z" || c == "A" || c == "Z" || c == "0" || c == "9") {
-						okSet = false
-					}
-				}
-			case *ast.CallExpr:
-				if f := calleeOf(finfo, x); c04Roles.isAliasQuoter(f) {
-					delegates = true
-				}
-			}
-			return true
-		})
+		okSet, undecidedSet, quotedReturns, detail := sanitizerVerdict(r, fp, fi, asciiSet("_$.*", letters...))
+		delegates := quotedReturns > 0
+		if undecidedSet && okSet {
+			r.Undecide("C04-R3-identifier-sink format:Identifier: " + detail)
+		}
 		if okSet && delegates {
 			r.Pass("C04-R3-identifier-sink", "format:Identifier", fi.Pos(), "identifiers are written verbatim only when made of letters, digits, _ $ . *; anything else is delimited by formatAlias")
 		} else {
 			identSanitised = false
-			r.Fail("C04-R3-identifier-sink", "format:Identifier", fi.Pos(), "formatIdentifier passes a character through that is significant in SQL, or no longer delegates to the quoting function (safe set ok: %v, delegates: %v)", okSet, delegates)
+			r.Fail("C04-R3-identifier-sink", "format:Identifier", fi.Pos(), "formatIdentifier passes a character through that is significant in SQL, or no longer delegates to the quoting function (safe set ok: %v, delimits otherwise: %v) %s", okSet, delegates, detail)
 		}
 	} else {
 		r.Fail("C04-R3-identifier-sink", "format:Identifier", token.NoPos, "the formatter's identifier case writes identifiers verbatim (no quoting step): any user-derived name in an identifier position is read as SQL")
